@@ -118,7 +118,7 @@ class FracLaplBuf:
 
 
 def _set_flapl(a=0.025, d=0.004, size=6000, lmax=6, s=0.5):
-    s_key = int(s * 100)
+    s_key = float(s)
     if s_key not in GLOBAL_FRAC_LAPL_DATA or GLOBAL_FRAC_LAPL_DATA[s_key].lmax < lmax:
         GLOBAL_FRAC_LAPL_DATA[s_key] = FracLaplBuf(a, d, size, lmax, s)
     GLOBAL_FRAC_LAPL_DATA[s_key].set_data()
